@@ -80,6 +80,22 @@ from .. import core as _core
 from ..attach import run_oracle as _run_oracle
 from .base import ShardAcc as _ShardAcc
 from . import predeclared as _pre
+from . import opfaults as _opf
+
+
+def _serial_victim(scfg):
+    from numba_scfg.core.datastructures.scfg import SCFG
+
+    def op():
+        SCFG.from_dict(scfg.to_dict())
+        SCFG.from_yaml(scfg.to_yaml())
+    return op
+
+
+def _serial_oracle(scfg):
+    from ..oracles.serial import check_roundtrip
+
+    return check_roundtrip(scfg, 1)
 
 _plan1 = _plan
 _run1 = CHECK.run_shard
@@ -95,6 +111,7 @@ def _plan2(tier, seed):
         out.append({"kind": "flat_rand", "seed": seed, "start": start, "count": per, "tier": tier})
     # graphs that arrive with back edges declared and are restructured afterwards
     out += _pre.plan(tier, seed, 400, 12000)
+    out += _opf.plan(tier, seed, 300, 10000)
     return out
 
 
@@ -125,6 +142,9 @@ def _flat_case(gd, acc, payload, chain, be=None):
 
 def _run2(spec):
     k = spec["kind"]
+    if k == "opfaults" or (k == "single" and spec["case"].get("kind") == "opfault"):
+        return _opf.run_shard(spec, "C15", CHECK.profile, _serial_victim, _serial_oracle, None,
+                              payload="bytecode")
     if k == "predeclared" or (k == "single" and spec["case"].get("kind") == "predeclared"):
         attach.OPTS["serial_chain"] = 1 if spec.get("tier", "quick") == "quick" else 3
         return _pre.run_shard(spec, "C15", CHECK.profile)
